@@ -166,7 +166,7 @@ def evaluate__name_related_functions(self: XPathFunction, context: ta.ContextTyp
     elif not isinstance(arg, XPathNode):
         raise self.error('XPTY0004')
 
-    name = arg.name
+    name = getattr(arg, 'name', None)  # a document node has no name
     if name is None:
         return empty
 
